@@ -50,6 +50,9 @@ def parse_call(f, mode, pbf, validate):
                 import io
 
                 m = UBXReader(io.BytesIO(b""), validate=1 - (validate & 1)).parse(bytes(f), msgmode=mode, validate=validate, parsebitfield=pbf)
+            elif len(f) % 5 == 2:
+                # all arguments positionally; the frame as a bytes subclass, the mode as a member of an IntEnum
+                m = UBXReader.parse(envrot.FrameBytes(f), envrot.mode_arg(mode, len(f) + 3), validate, pbf)
             else:
                 m = UBXReader.parse(bytes(f), msgmode=mode, validate=validate, parsebitfield=pbf)
     except Exception as ex:  # noqa: BLE001
@@ -84,7 +87,7 @@ def obs_c01(case):
         try:
             s = repr(m) if len(f) <= 600 else ""
             ok = bool(s) and s.isascii()
-            ev["repr"], ev["reprok"], ev["mmode"] = (s if ok else ""), (1 if ok else 0), (m.msgmode if isinstance(m.msgmode, int) else -1)
+            ev["repr"], ev["reprok"], ev["mmode"] = (s if ok else ""), (1 if ok else 0), (int(m.msgmode) if isinstance(m.msgmode, int) else -1)
         except Exception:  # noqa: BLE001
             ev["repr"], ev["reprok"], ev["mmode"] = "", 0, -1
     return ev
